@@ -89,7 +89,9 @@ def _rd_canon(text):
             return None
         for a in rm.GetAtoms():
             a.SetAtomMapNum(0)
-        return Chem.MolToSmiles(rm)
+        # atom maps make RDKit perceive extra (pseudo) centres at parse time: write without maps and canonicalise that text again
+        rm = Chem.MolFromSmiles(Chem.MolToSmiles(rm))
+        return None if rm is None else Chem.MolToSmiles(rm)
     except Exception:
         return None
 
@@ -139,8 +141,13 @@ def round_trip(m, spec, rd_ref=None):
 # ---- workers ------------------------------------------------------------------------------------------------------------------
 
 def _eval_molecule(ident, m, specs, n_rand, use_rdkit=True):
+    from oracles.o01_gaps import gaps
     s0 = str(m)
-    rd_ref = _rd_canon(s0) if use_rdkit else None
+    # the secondary, RDKit-based judgement is used only outside the two symmetry classes (stereo labels next to constitutionally
+    # equivalent substituents; symmetric polycyclic cages) where RDKit's own canonical isomeric SMILES is not invariant under
+    # re-spelling (measured on the unchanged tree: 46 cage molecules of the decorated atlas, all inside these classes).  The primary
+    # contract - atom by atom under the written order - has no exclusion.
+    rd_ref = _rd_canon(s0) if use_rdkit and not any(gaps(m)) else None
     ncases, keys, bad, nrd = 0, set(), [], 0
     badspecs = set()
     for spec in specs:
@@ -298,7 +305,7 @@ def bounded(run):
 
     _closure_contract(run)
 
-    recs = G.atlas_records(max_nodes, trials, tag='b02') + G.ion_records()
+    recs = G.atlas_records(max_nodes, trials) + G.ion_records()
     for s in G.SPECIAL_SMILES:
         recs.append(G.rec_of(D.parse(s), f'special:{s}'))
     recs += G.expander_records(36, 2 if quick else 4) + (G.expander_records(60, 2, tag='expander60') if not quick else [])
@@ -337,10 +344,12 @@ def bounded(run):
         if k % 211 == 1:
             run.case(0, sample={'domain': 'atlas', 'input': ident, 'canonical': s0, 'evaluations': ncases, 'stereo_labels': nst})
         by_string.setdefault(s0, []).append(ident)
-        for spec, text, d, _sub in bad:
-            run.violation(f'roundtrip[{spec}]:{ident}', f'C02 write->read, spec {spec!r}: {d} [atlas input {ident}, text {text!r}]',
+        if bad:
+            spec, text, d, _sub = bad[0]
+            run.violation(f'roundtrip:{ident}', f'C02 write->read, spec {spec!r}: {d} [atlas input {ident}, text {text!r}]' +
+                          (f' (also specs {[b[0] for b in bad[1:]]})' if len(bad) > 1 else ''),
                           witness={'relation': 'roundtrip', 'domain': 'atlas', 'input': ident, 'record': by_id[ident], 'spec': spec,
-                                   'text': text}, native={'canonical': s0, 'difference': d})
+                                   'text': text}, native={'canonical': s0, 'differences': {b[0]: [b[1], b[2]] for b in bad}})
     for text, s0, ncases, keys, bad, nrd, nst, fam, inj_bad in corpus_res:
         k += 1
         notes['molecules'] += 1 + max(0, len(fam) - 1)
@@ -356,11 +365,18 @@ def bounded(run):
         if k % 53 == 1:
             run.case(0, sample={'domain': 'corpus', 'input': text, 'canonical': s0, 'evaluations': ncases, 'stereo_labels': nst,
                                 'stereoisomers': len(fam)})
+        done = set()
         for spec, tx, d, sub in bad:
-            run.violation(f'roundtrip[{spec}]:{text}' + (f'/flip{sub}' if sub else ''),
-                          f'C02 write->read, spec {spec!r}: {d} [corpus input {text}, text {tx!r}]',
+            fl = tuple(sub) if sub else ()
+            if fl in done:
+                continue
+            done.add(fl)
+            same = [b for b in bad if (tuple(b[3]) if b[3] else ()) == fl]
+            run.violation(f'roundtrip:{text}' + (f'/flip{list(fl)}' if fl else ''),
+                          f'C02 write->read, spec {spec!r}: {d} [corpus input {text}, text {tx!r}]' +
+                          (f' (also specs {[b[0] for b in same[1:]]})' if len(same) > 1 else ''),
                           witness={'relation': 'roundtrip', 'domain': 'corpus', 'input': text, 'spec': spec, 'text': tx, 'flip': sub},
-                          native={'canonical': s0, 'difference': d})
+                          native={'canonical': s0, 'differences': {b[0]: [b[1], b[2]] for b in same}})
         for sa, sb, fs, why in inj_bad:
             run.violation(f'injectivity:{text}|{sa}|{sb}', f'C02 injectivity: stereoisomers {sa} and {sb} (inverted elements) of {text} share '
                                                            f'the canonical string {fs!r}: {why}',
